@@ -359,7 +359,7 @@ func TestVerifC14(t *testing.T) {
 	th := vres.Thorough()
 	maxL := 3
 	if th {
-		maxL = 5
+		maxL = 10
 	}
 	shard, shards := shardOf()
 	start := time.Now()
